@@ -1,16 +1,21 @@
 #!/bin/bash
-# applies each behaviour-preserving refactoring to a scratch worktree and runs all checks: every check must stay silent
-ROOT=${1:-/tmp/mutants}
-WT=/tmp/wt/rscan
-git -C /repo worktree remove --force $WT 2>/dev/null
-git -C /repo worktree add -q --detach $WT HEAD
-for d in $(ls -d $ROOT/ref_${RB:-r}*/R-* 2>/dev/null | sort); do
-  [ -f $d/patch.diff ] || continue
-  id=$(basename $(dirname $d))/$(basename $d)
-  (cd $WT && git checkout -q . && git clean -fdq && git apply $d/patch.diff) || { echo "$id APPLY-FAILED"; continue; }
-  out=$(/verif/bin/lhcheck -repo $WT -prop all -out /tmp/ev_rscan 2>&1); code=$?
-  rules=$(echo "$out" | grep "^  rule" | sed 's/^  rule \([^:]*\):.*/\1/' | sort -u | tr '\n' ',')
-  echo "$id exit=$code rules=[$rules] $(echo "$out" | grep -E 'BROKEN|UNDECIDED' | head -3 | cut -c1-200 | tr '\n' ' ')"
-done
-(cd $WT && git checkout -q . && git clean -fdq)
-git -C /repo worktree remove --force $WT
+# applies each behaviour-preserving refactoring kept under /verif/refactors/*/patch.diff to its own scratch worktree and runs ALL rules:
+# every one must stay silent (exit 0). usage: scan_refactors.sh [jobs] [id-regex]
+J=${1:-4}; RE=${2:-.}
+one() {
+  d=$1; id=$(basename $d)
+  WT=$(mktemp -d /tmp/sr.XXXXXX)/wt
+  git -C /repo worktree add -q --detach $WT HEAD 2>/dev/null
+  if (cd $WT && git apply $d/patch.diff 2>/dev/null); then
+    out=$(/verif/bin/lhcheck -repo $WT -prop all -out /tmp/ev_sr_$id 2>&1); code=$?
+    rules=$(echo "$out" | grep "^  rule" | sed 's/^  rule \([^:]*\):.*/\1/' | sort -u | tr '\n' ',')
+    echo "$id exit=$code rules=[$rules] $(echo "$out" | grep -E 'BROKEN|UNDECIDED' | head -2 | cut -c1-200 | tr '\n' ' ')"
+  else
+    echo "$id APPLY-FAILED (tree moved on)"
+  fi
+  git -C /repo worktree remove --force $WT 2>/dev/null; rm -rf $(dirname $WT) /tmp/ev_sr_$id
+}
+export -f one
+ls -d /verif/refactors/*/ | grep -E "$RE" | xargs -P $J -I{} bash -c 'one {}' | sort -V > /tmp/scan_refactors.out
+grep -v "exit=0" /tmp/scan_refactors.out
+echo "refactorings scanned: $(wc -l < /tmp/scan_refactors.out), alarms: $(grep -vc 'exit=0' /tmp/scan_refactors.out)"
